@@ -146,6 +146,131 @@
 #include <assert.h>
 #include <ctype.h>
 #include <string.h>
+
+#ifdef ASL_VERIF
+#    include "verif_hooks.h"
+
+FILE*    asl_verif_trace        = NULL;
+unsigned asl_verif_mask         = 0;
+long     asl_verif_max_passes   = 0;
+long     asl_verif_extra_passes = 0;
+
+void asl_verif_init(void) {
+    static char const* const Names[]
+            = {"file", "stmt", "emit", "sym", "ref", "diag", "line", "split"};
+    char const* pEnv = getenv("ASL_VERIF_TRACE");
+    unsigned    z;
+
+    if (getenv("ASL_VERIF_MAX_PASSES")) {
+        asl_verif_max_passes = atol(getenv("ASL_VERIF_MAX_PASSES"));
+    }
+    if (getenv("ASL_VERIF_EXTRA_PASSES")) {
+        asl_verif_extra_passes = atol(getenv("ASL_VERIF_EXTRA_PASSES"));
+    }
+    if (!pEnv || !*pEnv) {
+        return;
+    }
+    asl_verif_trace = fopen(pEnv, "a");
+    asl_verif_mask  = AV_FILE | AV_STMT | AV_EMIT | AV_SYM | AV_DIAG;
+    pEnv            = getenv("ASL_VERIF_EVENTS");
+    if (pEnv && *pEnv) {
+        asl_verif_mask = 0;
+        for (z = 0; z < sizeof(Names) / sizeof(*Names); z++) {
+            if (strstr(pEnv, Names[z])) {
+                asl_verif_mask |= 1u << z;
+            }
+        }
+    }
+}
+
+void asl_verif_str(char const* key, char const* val) {
+    fprintf(asl_verif_trace, "\"%s\":\"", key);
+    for (; val && *val; val++) {
+        unsigned char ch = (unsigned char)*val;
+
+        if ((ch == '"') || (ch == '\\')) {
+            fprintf(asl_verif_trace, "\\%c", ch);
+        } else if ((ch < 32) || (ch > 126)) {
+            fprintf(asl_verif_trace, "\\u%04x", ch);
+        } else {
+            fputc(ch, asl_verif_trace);
+        }
+    }
+    fputc('"', asl_verif_trace);
+}
+
+void asl_verif_hex(char const* key, unsigned char const* p, unsigned long n) {
+    fprintf(asl_verif_trace, "\"%s\":\"", key);
+    while (n--) {
+        fprintf(asl_verif_trace, "%02x", *p++);
+    }
+    fputc('"', asl_verif_trace);
+}
+
+static long asl_verif_file_extra;
+
+static int asl_verif_depth_if(void) {
+    PIfSave p;
+    int     n = 0;
+
+    for (p = FirstIfSave; p; p = p->Next) {
+        n++;
+    }
+    return n;
+}
+
+static int asl_verif_depth_intag(void) {
+    PInputTag p;
+    int       n = 0;
+
+    for (p = FirstInputTag; p; p = p->Next) {
+        n++;
+    }
+    return n;
+}
+
+static void asl_verif_stmt(void) {
+    tSavePhase*  pPh;
+    PSaveState   pSv;
+    PStructStack pSt;
+    PSaveSection pSe;
+    PIfSave      pIf;
+    int          nPh = 0, nSv = 0, nSt = 0, nSe = 0;
+
+    for (pPh = pPhaseStacks[ActPC]; pPh; pPh = pPh->pNext) {
+        nPh++;
+    }
+    for (pSv = FirstSaveState; pSv; pSv = pSv->Next) {
+        nSv++;
+    }
+    for (pSt = StructStack; pSt; pSt = pSt->Next) {
+        nSt++;
+    }
+    for (pSe = SectionStack; pSe; pSe = pSe->Next) {
+        nSe++;
+    }
+    fprintf(asl_verif_trace, "{\"e\":\"stmt\",\"pass\":%d,\"line\":%ld,", (int)PassNo,
+            (long)CurrLine);
+    asl_verif_str("op", OpPart.str.p_str);
+    fprintf(asl_verif_trace,
+            ",\"lab\":%d,\"ifasm\":%d,\"wasif\":%d,\"wasmac\":%d,\"rec\":%d,"
+            "\"seg\":%d,\"pc\":%llu,\"ph\":%lld,\"phd\":%d,\"svd\":%d,\"std\":%d,"
+            "\"sed\":%d,\"tagd\":%d,\"len\":%ld,\"res\":%d,\"gran\":%d,\"cpu\":%d,"
+            "\"errs\":%u,\"ifs\":[",
+            *LabPart.str.p_str ? 1 : 0, IfAsm ? 1 : 0, WasIF ? 1 : 0, WasMACRO ? 1 : 0,
+            FirstOutputTag ? 1 : 0, (int)ActPC,
+            (unsigned long long)((ActPC == StructSeg) ? PCs[ActPC] : ProgCounter()),
+            (long long)Phases[ActPC], nPh, nSv, nSt, nSe, asl_verif_depth_intag(),
+            (long)CodeLen, DontPrint ? 1 : 0, (int)Granularity(), (int)HeaderID,
+            (unsigned)ErrorCount);
+    for (pIf = FirstIfSave; pIf; pIf = pIf->Next) {
+        fprintf(asl_verif_trace, "%s[%d,%d,%d]", (pIf == FirstIfSave) ? "" : ",",
+                (int)pIf->State, pIf->CaseFound ? 1 : 0, pIf->SaveIfAsm ? 1 : 0);
+    }
+    fprintf(asl_verif_trace, "]}\n");
+}
+#endif /* ASL_VERIF */
+
 /**          Code21xx};**/
 
 static long     StartTime, StopTime;
@@ -2152,6 +2277,14 @@ static void GetNextLine(as_dynstr_t* pLine) {
     }
 
     MacLineSum++;
+#ifdef ASL_VERIF
+    if (AV_ON(AV_LINE)) {
+        fprintf(asl_verif_trace, "{\"e\":\"line\",\"pass\":%d,\"depth\":%d,\"empty\":%d,",
+                (int)PassNo, asl_verif_depth_intag(), FirstInputTag->IsEmpty ? 1 : 0);
+        asl_verif_str("text", pLine->p_str);
+        fprintf(asl_verif_trace, "}\n");
+    }
+#endif
 }
 
 typedef struct {
@@ -2331,6 +2464,16 @@ void WriteCode(void) {
             }
         } else if (CodeOutput) {
             PCsUsed[ActPC] = True;
+#ifdef ASL_VERIF
+            if (DontPrint && AV_ON(AV_EMIT)) {
+                fprintf(asl_verif_trace,
+                        "{\"e\":\"reserve\",\"pass\":%d,\"line\":%ld,\"seg\":%d,\"gran\":%d,"
+                        "\"addr\":%llu,\"ph\":%lld,\"n\":%ld}\n",
+                        (int)PassNo, (long)CurrLine, (int)ActPC, (int)Granularity(),
+                        (unsigned long long)ProgCounter(), (long long)Phases[ActPC],
+                        (long)CodeLen);
+            }
+#endif
             if (DontPrint) {
                 NewRecord(NewPC);
             } else {
@@ -2751,6 +2894,34 @@ static void SplitLine(void) {
             pRun = (pDivPos < pEnd) ? pDivPos + 1 : pEnd;
         }
     }
+#ifdef ASL_VERIF
+    if (AV_ON(AV_SPLIT)) {
+        int z;
+
+        fprintf(asl_verif_trace, "{\"e\":\"split\",\"pass\":%d,\"line\":%ld,\"hasattrs\":%d,",
+                (int)PassNo, (long)CurrLine, HasAttrs ? 1 : 0);
+        asl_verif_str("raw", OneLine.p_str);
+        fputc(',', asl_verif_trace);
+        asl_verif_str("div", DivideChars);
+        fputc(',', asl_verif_trace);
+        asl_verif_str("attrchars", AttrChars);
+        fputc(',', asl_verif_trace);
+        asl_verif_str("cmt", pCommentLeadIn);
+        fputc(',', asl_verif_trace);
+        asl_verif_str("lab", LabPart.str.p_str);
+        fputc(',', asl_verif_trace);
+        asl_verif_str("op", OpPart.str.p_str);
+        fputc(',', asl_verif_trace);
+        asl_verif_str("attr", AttrPart.str.p_str);
+        fprintf(asl_verif_trace, ",\"args\":[");
+        for (z = 1; z <= ArgCnt; z++) {
+            fprintf(asl_verif_trace, "%s{", (z > 1) ? "," : "");
+            asl_verif_str("a", ArgStr[z].str.p_str);
+            fputc('}', asl_verif_trace);
+        }
+        fprintf(asl_verif_trace, "]}\n");
+    }
+#endif
 }
 
 /*------------------------------------------------------------------------*/
@@ -2793,6 +2964,11 @@ static void ProcessFile(char* pFileName) {
         } else {
             SplitLine();
             Produce_Code();
+#ifdef ASL_VERIF
+            if (AV_ON(AV_STMT)) {
+                asl_verif_stmt();
+            }
+#endif
         }
 
         MakeList(OneLine.p_str);
@@ -3168,6 +3344,19 @@ static void AssembleFile(char* Name) {
 
     /* Listdatei eroeffnen */
 
+#ifdef ASL_VERIF
+    asl_verif_file_extra = asl_verif_extra_passes;
+    if (AV_ON(AV_FILE)) {
+        fprintf(asl_verif_trace, "{\"e\":\"file_begin\",");
+        asl_verif_str("file", SourceFile);
+        fprintf(asl_verif_trace, ",\"ifasm\":%d,\"ifd\":%d,\"tagd\":%d,\"rec\":%d,\"svd\":%d,"
+                "\"std\":%d,\"sed\":%d}\n",
+                IfAsm ? 1 : 0, asl_verif_depth_if(), asl_verif_depth_intag(),
+                FirstOutputTag ? 1 : 0, FirstSaveState ? 1 : 0, StructStack ? 1 : 0,
+                SectionStack ? 1 : 0);
+    }
+#endif
+
     if (!QuietMode) {
         printf("%s%s\n", getmessage(Num_InfoMessAssembling), SourceFile);
     }
@@ -3178,6 +3367,14 @@ static void AssembleFile(char* Name) {
         AssembleFile_InitPass();
         AsmSubPassInit();
         AsmErrPassInit();
+#ifdef ASL_VERIF
+        if (AV_ON(AV_FILE)) {
+            fprintf(asl_verif_trace, "{\"e\":\"pass_begin\",\"pass\":%d,\"seg\":%d,\"pc\":%llu,"
+                    "\"ifasm\":%d,\"cpu\":%d}\n",
+                    (int)PassNo, (int)ActPC, (unsigned long long)ProgCounter(),
+                    IfAsm ? 1 : 0, (int)HeaderID);
+        }
+#endif
         if (!QuietMode) {
             as_snprintf(Tmp, sizeof(Tmp), "%s", getmessage(Num_InfoMessPass));
             as_snprcatf(Tmp, sizeof(Tmp), "%" PRId32, PassNo);
@@ -3276,6 +3473,30 @@ static void AssembleFile(char* Name) {
             CloseIfOpen(&MacroFile);
         }
 
+#ifdef ASL_VERIF
+        if (AV_ON(AV_FILE)) {
+            fprintf(asl_verif_trace, "{\"e\":\"pass_end\",\"pass\":%d,\"repass\":%d,\"errs\":%u,"
+                    "\"warns\":%u,\"ifd\":%d,\"tagd\":%d}\n",
+                    (int)PassNo, Repass ? 1 : 0, (unsigned)ErrorCount, (unsigned)WarnCount,
+                    asl_verif_depth_if(), asl_verif_depth_intag());
+            fflush(asl_verif_trace);
+        }
+        if ((ErrorCount == 0) && Repass && (asl_verif_max_passes > 0)
+            && (PassNo >= asl_verif_max_passes)) {
+            if (asl_verif_trace) {
+                fprintf(asl_verif_trace, "{\"e\":\"pass_cap\",\"pass\":%d}\n", (int)PassNo);
+                fclose(asl_verif_trace);
+            }
+            exit(97);
+        }
+        if ((ErrorCount == 0) && !Repass && (asl_verif_file_extra > 0)) {
+            asl_verif_file_extra--;
+            Repass = True;
+            if (AV_ON(AV_FILE)) {
+                fprintf(asl_verif_trace, "{\"e\":\"extra_pass\"}\n");
+            }
+        }
+#endif
         /* evtl. fuer naechsten Durchlauf aufraeumen */
 
         if ((ErrorCount == 0) && (Repass)) {
@@ -3319,6 +3540,16 @@ static void AssembleFile(char* Name) {
         }
         GlobErrFlag = True;
     }
+
+#ifdef ASL_VERIF
+    if (AV_ON(AV_FILE)) {
+        fprintf(asl_verif_trace, "{\"e\":\"file_end\",\"passes\":%d,\"errs\":%u,\"warns\":%u,"
+                "\"kept\":%d}\n",
+                (int)PassNo, (unsigned)ErrorCount, (unsigned)WarnCount,
+                (ErrorCount == 0) ? 1 : 0);
+        fflush(asl_verif_trace);
+    }
+#endif
 
     /* Debug-Ausgabe muss VOR die Symbollistenausgabe, weil letztere die
        Symbolliste loescht */
@@ -4254,6 +4485,9 @@ int main(int argc, char** argv) {
         if (!NLS_Initialize(&argc, argv)) {
             exit(4);
         }
+#ifdef ASL_VERIF
+        asl_verif_init();
+#endif
 
         nlmessages_init("as.msg", *argv, MsgId1, MsgId2);
         ioerrs_init(*argv);
